@@ -78,6 +78,12 @@ type rootNodeLoc struct {
 	// More nodes to maybe reclaim when our reference count goes to 0.
 	// But they might be repeated, so we scan for them during reclaimation.
 	reclaimLater [3]*node
+
+	// Set when a Collection handle was closed while this was its current
+	// version; cleared again when a newer version is derived from it.
+	// Once such a version has lost its last reference and no newer version
+	// is chained to it, nothing can share its tree any more.
+	closed bool
 }
 
 // Name returns as a string the name of the collection
@@ -92,9 +98,14 @@ func (t *Collection) closeCollection() { // Just "close" is a keyword.
 	t.rootLock.Lock()
 	r := t.root
 	t.root = nil
+	if r != nil {
+		// Other handles (a snapshot, the handle returned by SetCollection)
+		// or a newer version may still share the tree: it is handed to
+		// the free list only when the version dies, see rootDecRefUnlocked.
+		r.closed = true
+	}
 	t.rootLock.Unlock()
 	verifYield(10) // VerifSiteCloseColl
-	t.reclaimMarkUpdate(r.root, nil, &r.reclaimMark)
 	if r != nil {
 		t.rootDecRef(r)
 	}
@@ -787,6 +798,9 @@ func (t *Collection) rootCAS(prev, next *rootNodeLoc) bool {
 		return false // TODO: Callers need to release resources.
 	}
 	t.root = next
+	if prev != nil {
+		prev.closed = false // next shares nodes with prev.
+	}
 
 	if prev != nil && prev.refs > 2 {
 		// Since the prev is in-use, hook up its chain to disallow
@@ -826,6 +840,8 @@ func (t *Collection) rootDecRefUnlocked(r *rootNodeLoc) {
 	}
 	if r.chainedCollection != nil && r.chainedRootNodeLoc != nil {
 		r.chainedCollection.rootDecRefUnlocked(r.chainedRootNodeLoc)
+	} else if r.closed {
+		t.markTreeReclaimableUnlocked(r.root, &r.reclaimMark)
 	}
 	t.reclaimNodesUnlocked(r.root.Node(), &r.reclaimLater, &r.reclaimMark)
 	for i := 0; i < len(r.reclaimLater); i++ {
